@@ -506,3 +506,28 @@ func fmtAny(v interface{}) string { return fmt.Sprintf("%T(%v)", v, v) }
 // a symbolic library model against the native function).
 func vfConcretize(s string) string { return s }
 func vfLooseLibraries() {}
+
+// vfRegexEquivLiterals: does the regular expression match exactly the given
+// literals? Under the symbolic engine this is decided for ALL strings by the
+// SMT theory of regular expressions; natively the two sides are evaluated on
+// the witness string the solver produced (or on the empty string).
+func vfRegexEquivLiterals(pattern string, lits []string) bool {
+	if vfPos >= len(vfVec) || vfVec[vfPos].K != "str" {
+		panic(vfStop{"replay vector: expected a witness string"})
+	}
+	var w []byte
+	fmt.Sscanf(vfVec[vfPos].V, "%x", &w)
+	vfPos++
+	re, err := regexp.Compile(pattern)
+	if err != nil {
+		return true
+	}
+	in := false
+	for _, l := range lits {
+		if l == string(w) {
+			in = true
+		}
+	}
+	vfNotes = append(vfNotes, fmt.Sprintf("native: witness %q: regex matches=%v, in literal set=%v", string(w), re.MatchString(string(w)), in))
+	return re.MatchString(string(w)) == in
+}
